@@ -226,4 +226,109 @@ def run(repo='/repo', tier='quick'):
     from . import lockstep
     lockstep.run(db, res, 'C02.h')
     lockstep.run_single_step(db, res, 'C02.i', ['htp_parse_request_header_generic', 'htp_parse_response_header_generic', 'htp_parse_request_line_generic_ex', 'htp_parse_response_line_generic', 'htp_process_request_header_generic', 'htp_process_response_header_generic', 'htp_parse_ct_header', 'htp_parse_cookies_v0', 'htp_parse_single_cookie_v0', 'htp_parse_authorization_digest', 'htp_parse_authorization_basic', 'htp_parse_authorization', 'htp_extract_quoted_string_as_bstr', 'htp_parse_content_length', 'htp_parse_chunked_length', 'htp_parse_positive_integer_whitespace'])
+    c02j(db, res)
+    c02k(db, res)
     return res
+
+
+def _cursor_delta(seq, v):
+    d = 0
+    for x in seq:
+        if x[0] != 'stmt':
+            continue
+        for u in nodes(x[3], lambda y: y.get('k') == 'un' and y['op'] in ('++', '++post', '--', '--post') and strip(y['e']).get('k') == 'var' and strip(y['e'])['name'] == v):
+            d += 1 if '+' in u['op'] else -1
+        for a in nodes(x[3], lambda y: y.get('k') == 'assign' and y['op'] in ('+=', '-=') and strip(y['l']).get('k') == 'var' and strip(y['l'])['name'] == v):
+            k = strip(a['r'])
+            if k.get('k') == 'lit':
+                d += k['v'] if a['op'] == '+=' else -k['v']
+            else:
+                return None
+    return d
+
+
+def c02j(db, res):
+    """Quoted strings are extracted in two passes over the same bytes: one measures (finds the closing quote, counts the
+    escapes), one copies. They must step over an escape the same way - a measuring pass that walks byte by byte while the
+    copying pass takes backslash + octet as a pair disagree as soon as the escaped octet is itself a backslash, and the
+    reported string is cut short or padded with whatever the allocation held."""
+    res.rule('C02.j', 'the passes over a quoted string agree on escapes: in a function with several loops that test the byte at one cursor against a backslash, every such loop has the same set of (escape seen?, cursor advance) over its iteration paths')
+    n = 0
+    for name, f in sorted(db.fn.items()):
+        if not f.blocks:
+            continue
+        found = {}
+        lps = C.loops(f)
+        for h, body in lps:
+            tests = []
+            for bb in sorted(body):
+                c = f.cond_of(bb)
+                if not c:
+                    continue
+                e = strip(c[0])
+                if e.get('k') == 'bin' and e['op'] in ('==', '!=') and is_lit(strip(e['r']), 92) and strip(e['l']).get('k') == 'index' and strip(strip(e['l'])['idx']).get('k') == 'var':
+                    tests.append((bb, P.K(strip(e['l'])['base']), strip(strip(e['l'])['idx'])['name']))
+            if len(tests) != 1 or any(b2 < body and tests[0][0] in b2 for h2, b2 in lps):
+                continue
+            bb, arr, v = tests[0]
+            sig = set()
+            try:
+                paths = P.enum_paths_seq(f, (h, -1), max_paths=20000)
+            except AnalysisBroken:
+                continue
+            for atoms, events, end, seq in paths:
+                if end[0] != 'loop' or end[1] != h:
+                    continue
+                esc = any(a[0] == '%s[%s]' % (arr, v) and a[1] == '==' and a[2] in ('92', "'\\\\'") for a, e_ in atoms)
+                sig.add((esc, _cursor_delta(seq, v)))
+            found.setdefault((arr, v), []).append((h, sig, c[0].get('loc', f.loc) if c else f.loc))
+        for (arr, v), ls in found.items():
+            if len(ls) < 2:
+                continue
+            n += 1
+            ref = ls[0][1]
+            same = all(sg == ref for h, sg, loc in ls)
+            res.check(same, 'C02.j', '%s:%s[%s]:escape-steps' % (name, arr, v), 'all %d passes advance the cursor the same way: %s' % (len(ls), sorted(ref, key=str)),
+                      '%s scans %s[%s] in %d passes that disagree on how far an escape advances the cursor (%s): the measured length and the copied bytes no longer belong together when the escaped octet is a backslash' % (name, arr, v, len(ls), ' vs '.join(str(sorted(sg, key=str)) for h, sg, loc in ls)), ls[-1][2])
+    res.floor('C02.j', 'functions with two escape-aware passes over one buffer', n, 1)
+
+
+def c02k(db, res):
+    """A header line is parked in in_header / out_header while the parser waits to see whether the next line continues it.
+    Whoever leaves the header state has to process (or knowingly discard) the parked line first: otherwise the field is
+    missing from its own message and is prepended to the first header of the next one."""
+    res.rule('C02.k', 'the parked header line is dealt with before the header state is left: in htp_connp_REQ_HEADERS / htp_connp_RES_HEADERS every path to a return that changed the state (a store to the state slot, or the call that does it) passes a test of the parked line against NULL or its processing')
+    n = 0
+    for name, d, hdr in (('htp_connp_REQ_HEADERS', 'in', 'in_header'), ('htp_connp_RES_HEADERS', 'out', 'out_header')):
+        f = db.get(name)
+        # functions that change the state slot themselves (directly, or through a helper: closed over direct calls)
+        movers = {n_ for n_, g in db.fn.items() if g.blocks and P.field_writes(g, '%s_state' % d)}
+        grew = True
+        while grew:
+            grew = False
+            for n_, g in db.fn.items():
+                if n_ not in movers and g.blocks and n_ != name and any((c2.get('callee') in movers) for b_, i_, c2 in g.calls()):
+                    movers.add(n_)
+                    grew = True
+        movers.discard(name)
+        for b, i, st in f.returns() or []:
+            rv = P.ret_value(st)
+            if rv is None or lit_name(rv) in ('HTP_ERROR', 'HTP_DATA', 'HTP_DATA_BUFFER'):
+                continue
+            bad = None
+            k = 0
+            for atoms, events, end, seq in P.enum_paths_seq(f, (f.entry, -1), stop=lambda bb, ii, s_: (bb, ii) == (b, i), max_paths=100000):
+                if not (end[0] == 'return' and tuple(end[1:3]) == (b, i)):
+                    continue
+                leaves = any(x[0] == 'stmt' and (P.assigns_field(x[3], '%s_state' % d) or any((c2.get('callee') or '') in movers for c2 in nodes(x[3], lambda y: y.get('k') == 'call'))) for x in seq)
+                if not leaves:
+                    continue
+                k += 1
+                dealt = any(a[0] == 'connp->' + hdr and a[1] in ('==', '!=') and a[2] == '0' for a, e_ in atoms)
+                if not dealt:
+                    bad = [a for a, e_ in atoms][-2:]
+            if k:
+                n += 1
+                res.check(bad is None, 'C02.k', '%s:leaves-state@%s' % (name, '|'.join('%s%s%s' % a for a, e_ in P.facts_at(f, b)[-1:]) or 'top'), 'every path tests (and processes) the parked header line first',
+                          '%s leaves the header state on a path that never looks at the parked header line connp->%s (guards: %s): a field that was waiting for a possible continuation line is missing from this message and turns up at the head of the next one' % (name, hdr, bad), st['loc'])
+    res.floor('C02.k', 'state-changing returns of the header states', n, 3)
